@@ -85,12 +85,17 @@ class C02(MotionMonitor):
                     stats["c02_arcs_clear_by_reference_but_planned_inside"] += 1
                     return False
             return True
-        entered = any(entered_by(r) for r in tr.steps)
+        # a program is one job: with an earlier, abandoned run in the history only the steps of the last job are judged
+        starts = [r["idx"] for r in tr.steps if r["kind"] == "event" and r.get("event") == "PrintStarted"]
+        job = [r for r in tr.steps if not starts or r["idx"] > starts[-1]]
+        if len(starts) > 1:
+            stats["c02_jobs_after_an_abandoned_run"] += 1
+        entered = any(entered_by(r) for r in job)
         if entered or tr.truncated:
             stats["discarded_generator_entered_region_or_truncated"] += 1
             return dict(violations=[], nontrivial=False, stats=stats, sets=sets, sample=None)
         retract = recover = ext = 0
-        for r in tr.steps:
+        for r in job:
             if r["kind"] == "g":
                 stats["c02_commands_compared"] += 1
                 if r["out"] != [r["cmd"]]:
